@@ -32,6 +32,19 @@ Proof.
   - apply IH. assumption.
 Qed.
 
+Lemma ptrs_attach : forall (e : env) (ps : list Z), List.length e = List.length ps -> ptrs (attach e ps) = ps.
+Proof.
+  induction e as [|xv e IH]; intros [|q ps] L; cbn in L; try discriminate; [reflexivity|].
+  cbn [attach ptrs map h_ptr snd]. f_equal. apply IH. lia.
+Qed.
+Lemma ctx_of_env_kinds (ce : list (ident * value)) :
+  Forall2 (fun b f => chi_of f = bchi b /\ ty_of f = bty b) (ctx_of_env ce) (map snd ce).
+Proof. induction ce as [|[x v] ce IH]; cbn; constructor; auto. Qed.
+Lemma ctx_of_env_ids (ce : list (ident * value)) : env_ids ce = ids (ctx_of_env ce).
+Proof. unfold env_ids, ids, ctx_of_env. rewrite map_map. reflexivity. Qed.
+Lemma ctx_of_env_length (ce : list (ident * value)) : List.length (ctx_of_env ce) = List.length ce.
+Proof. unfold ctx_of_env. apply map_length. Qed.
+
 Section HC.
 Variable im : image.
 Variable p : prog.
@@ -183,5 +196,153 @@ Proof.
     split.
     + rewrite <- Lfs. rewrite load_ops_run by (cbn; lia). exact RL.
     + eapply hframe_eq_trans; [|exact FEL]. split; [exact OUj|apply stack_frame_eq; exact STj].
+Qed.
+(* ---------- Invoke ---------- *)
+Theorem hsim_invoke c he hs s sp v tag t args cd lc lc' pc he0 x tn cls ce q cl e1 lk hl fl cl0 :
+  hrel c he hs s sp ->
+  (forall pc0 c0, PM.find pc0 (code im) = Some c0 -> instr_wf c0 = true) ->
+  AxSem.split_last 1 he = Some (he0, [(x, VClo tn cls ce, q)]) ->
+  find_clause cls tag = Some cl -> bind (vars (cl_ctx cl)) (map snd (erase_env he0)) = Some e1 ->
+  lin_check (sigs_of p) c (Invoke v tag t args) = true ->
+  xcs (ptypes p) (Invoke v tag t args) c lc = Ok (cd, lc') -> code_at im pc cd ->
+  InvA HEAP_BASE hs (roots he) hl fl cl0 -> P03 hs -> Heap.frontier hs <= LIMIT ->
+  (ce <> [] -> HeapRep.rep_flds lk (Heap.m hs) (map snd ce) q) ->
+  exists pcb lcb cb lcb' s',
+    exec_to im pc s pcb s' /\
+    xcs (ptypes p) (cl_body cl) (cl_ctx cl ++ ctx_of_env ce) lcb = Ok (cb, lcb') /\ code_at im pcb cb /\ labels_at_nh im pcb cb /\
+    lin_check (sigs_of p) (cl_ctx cl ++ ctx_of_env ce) (cl_body cl) = true /\
+    hrel (cl_ctx cl ++ ctx_of_env ce) (attach e1 (ptrs he0) ++ attach ce (load_ptrs hs (List.length ce) q))
+         (hrun (load_ops (List.length ce) q) hs) s' sp /\
+    hframe_eq s s' sp.
+Proof.
+  intros R ENC SL FC BD LC CS CA IA K03 HFr RF.
+  apply split_last1_inv in SL. subst he.
+  pose proof (hrel_length R) as LEN. rewrite app_length in LEN. cbn [List.length] in LEN.
+  cbn [lin_check] in LC. apply andb_true_iff in LC as [_ LC].
+  destruct (split_lastn 1 c) as [[c0 [|b [|b' r]]]|] eqn:SLc; try discriminate.
+  apply split_lastn_Some in SLc as [-> _].
+  apply andb_true_iff in LC as [LC AO]. apply andb_true_iff in LC as [LC TY]. apply andb_true_iff in LC as [IDb CH].
+  apply N.eqb_eq in IDb. apply ty_eqb_eq in TY. apply chi_eqb_eq in CH.
+  rewrite app_length in LEN. cbn [List.length] in LEN. assert (L0 : List.length he0 = List.length c0) by lia.
+  (* the closure *)
+  destruct (hr_vals R (List.length he0) x (VClo tn cls ce) q) as (b0 & Hb0 & V); [apply nth_error_mid|].
+  rewrite L0, nth_error_mid in Hb0. inversion Hb0; subst b0. clear Hb0.
+  inversion V as [|b1 v1 q1 a t1 t2 NE K1 K2 T1 T2 L1 L2 X]; subst. clear V.
+  cbn in K2. rewrite <- K2 in *.
+  inversion X as [| |tn1 cls1 ce1 q1 a1 CLOa XF]; subst. clear X.
+  destruct CLOa as (CO & AB & ENTRY).
+  destruct (cs_invoke _ _ _ _ _ _ _ _ _ CS) as (tmpv & d & TV & LT & _ & CODE).
+  assert (TVeq : tmpv = t2).
+  { rewrite <- IDb in TV. rewrite (vt_of_nth0 (c0 ++ [b]) (List.length c0) b (hr_nodup R) (nth_error_mid _ _ _)) in TV.
+    rewrite L0 in T2. congruence. }
+  subst tmpv.
+  unfold cls_ok, type_xtors in CO. cbn [sigs_of sg_types] in CO.
+  unfold lookup_type in LT.
+  destruct (find (fun d => ident_eqb (tname d) tn) (ptypes p)) as [d'|] eqn:FD; [|discriminate]. inversion LT; subst d'. clear LT.
+  destruct (find_clause_pos cls (txtors d) tag cl 0%N CO FC) as (k & xk & Hk & Hxk & XP & FX & SMk).
+  pose proof (cls_sig_length _ _ CO) as LCL.
+  destruct (ENTRY k cl Hk) as (i & pcc & lcl & cl1 & lcb & cb & lcb' & IX & SMa & ARR & LD & BDY & CAb & LAb & LCb).
+  pose proof (hr_frame R) as F.
+  assert (T2' : xtpos Snd (List.length c0) = Ok t2) by (rewrite <- L0; exact T2).
+  assert (T1' : xtpos Fst (List.length c0) = Ok t1) by (rewrite <- L0; exact T1).
+  destruct (xtpos_ok _ _ _ T2') as (Lt2 & Nt2 & _ & NFt2 & NHt2).
+  destruct (xtpos_ok _ _ _ T1') as (Lt1 & Nt1 & _).
+  assert (NE12 : t1 <> t2).
+  { intros E; subst. destruct (SubstGraph.tpos_inj x86_backend x86_backend_ok _ _ _ _ _ T1' T2') as [E _]. discriminate. }
+  (* the arguments, relabelled *)
+  assert (SM0 : sig_match c0 (cl_ctx cl) = true).
+  { unfold args_ok, lookup_xtor, type_xtors in AO. cbn [sigs_of sg_types] in AO. rewrite FD, FX in AO. eapply sig_match_join; eauto. }
+  assert (LC0 : List.length (cl_ctx cl) = List.length c0) by (apply sig_match_iff, same_kt_length in SM0; lia).
+  assert (NDc : NoDup (ids (cl_ctx cl))).
+  { pose proof (lin_nodup _ _ _ LCb) as X. unfold ids in *. rewrite map_app in X. eapply NoDup_app_l; eauto. }
+  pose proof (hbind_rel (ptypes p) CLO c0 he0 hs s sp (cl_ctx cl) e1 (hrel_prefix (ptypes p) CLO c0 b he0 _ hs s sp R) NDc SM0 BD) as R1.
+  assert (Le1 : List.length e1 = List.length (ptrs he0)).
+  { destruct (bind_snd _ _ _ BD) as [_ B2]. apply (f_equal (@List.length ident)) in B2. unfold vars, ptrs in *. rewrite !map_length in *. lia. }
+  (* what the jump leaves alone *)
+  assert (KEEPJ : forall s', frame_ok s' sp -> heap s' = heap s -> out s' = out s -> stack s' = stack s ->
+             (forall r, r <> TEMP -> XR r <> t2 -> rget s' r = rget s r) ->
+             hrel (cl_ctx cl) (attach e1 (ptrs he0)) hs s' sp /\ lget s' sp (mtpos (2 * N.of_nat (List.length (cl_ctx cl)))) = Some q /\
+             hframe_eq s s' sp).
+  { intros s' F' HE' OU' ST' RG'.
+    assert (LG : forall l, loc_ok l -> l <> XR TEMP -> l <> t2 -> lget s' sp l = lget s sp l).
+    { intros l Ll N1 N2. destruct l as [r|q']; cbn [lget]; [apply RG'; congruence|unfold sget; now rewrite ST']. }
+    split; [|split].
+    - apply (hrel_keep (ptypes p) CLO _ _ hs s s' sp R1 F' HE').
+      + apply RG'; [discriminate|congruence].
+      + apply RG'; [discriminate|congruence].
+      + intros j bj n tj Hj _ Tj. destruct (xtpos_ok _ _ _ Tj) as (A & B & _). apply LG; auto.
+        intros E; subst tj. assert (Lj : (j < List.length (cl_ctx cl))%nat) by (apply nth_error_Some; congruence).
+        destruct (SubstGraph.tpos_inj x86_backend x86_backend_ok _ _ _ _ _ Tj T2') as [_ E]. lia.
+    - rewrite LC0. pose proof T1' as T1''. apply xtpos_mtpos in T1'' as [E1 _]. cbn [tnum_n] in E1. rewrite N.add_0_r in E1.
+      rewrite <- E1. rewrite LG; auto.
+    - split; [exact OU'|apply stack_frame_eq; exact ST']. }
+  assert (GO : forall rj s1 off, rget s1 rj = Some (a + off) ->
+             off = (if Nat.leb (List.length cls) 1 then 0 else jump_length (N.of_nat k)) ->
+             step im (JMP rj) s1 = Jump s1 i).
+  { intros rj s1 off RG ->. cbn [step]. unfold need. rewrite RG. unfold goto_addr. now rewrite IX. }
+  assert (JUMP : exists sj, exec_to im pc s pcc sj /\ hrel (cl_ctx cl) (attach e1 (ptrs he0)) hs sj sp /\
+                            lget sj sp (mtpos (2 * N.of_nat (List.length (cl_ctx cl)))) = Some q /\ hframe_eq s sj sp /\ heap sj = heap s).
+  { rewrite <- LCL in CODE. destruct (Nat.leb (List.length cls) 1) eqn:LE.
+    - subst cd. destruct t2 as [r|q']; cbn [x_jump lget loc_ok] in *.
+      + apply code_at_cons in CA as [CJ _].
+        destruct (KEEPJ s F eq_refl eq_refl eq_refl (fun _ _ _ => eq_refl)) as (A1 & A2 & A3).
+        exists s. split; [|auto]. eapply exec_jump; [exact CJ|apply (GO r s 0); [rewrite Z.add_0_r; exact L2|reflexivity]|apply ARR].
+      + apply code_at_cons in CA as [C0 CA]. apply code_at_cons in CA as [CJ _].
+        set (s1 := rset s TEMP (Some a)).
+        destruct (KEEPJ s1) as (A1 & A2 & A3); try reflexivity.
+        { apply frame_ok_rset; [discriminate|exact F]. }
+        { intros r N1 _. unfold s1. apply rget_rset_other. congruence. }
+        exists s1. split; [|auto].
+        eapply exec_next; [exact C0|rewrite (step_MOVL_slot im s sp F) by exact Lt2; rewrite L2; reflexivity|].
+        eapply exec_jump; [exact CJ|apply (GO TEMP _ 0); [rewrite Z.add_0_r; apply rget_rset_same|reflexivity]|apply ARR].
+    - destruct CODE as (k' & XP' & ->). assert (k' = N.of_nat k) by (rewrite XP in XP'; inversion XP'; lia). subst k'.
+      set (off := jump_length (N.of_nat k)) in *.
+      assert (OFF : 0 <= off) by (unfold off, jump_length; lia).
+      destruct t2 as [r|q']; cbn [x_add_and_jump lget loc_ok] in *.
+      + apply code_at_cons in CA as [C0 CA]. apply code_at_cons in CA as [CJ _].
+        pose proof (ENC _ _ C0) as W. cbn [instr_wf] in W. apply andb_true_iff in W as [_ FI].
+        set (s1 := set_flags (rset s r (Some (a + off))) None).
+        assert (ST : step im (ADDI r off) s = Next s1).
+        { cbn [step]. rewrite FI. unfold need. rewrite L2. rewrite wrap_small_range by lia. reflexivity. }
+        destruct (KEEPJ s1) as (A1 & A2 & A3); try reflexivity.
+        { unfold s1. apply frame_ok_set_flags, frame_ok_rset; auto. }
+        { intros r0 N1 N2. unfold s1. rewrite rget_set_flags. apply rget_rset_other. congruence. }
+        exists s1. split; [|auto].
+        eapply exec_next; [exact C0|exact ST|].
+        eapply exec_jump; [exact CJ|apply (GO r s1 off); [unfold s1; rewrite rget_set_flags; apply rget_rset_same|reflexivity]|apply ARR].
+      + apply code_at_cons in CA as [C0 CA]. apply code_at_cons in CA as [C1 CA]. apply code_at_cons in CA as [CJ _].
+        pose proof (ENC _ _ C1) as W. cbn [instr_wf] in W. apply andb_true_iff in W as [_ FI].
+        set (s0 := rset s TEMP (Some a)). set (s1 := set_flags (rset s0 TEMP (Some (a + off))) None).
+        assert (ST : step im (ADDI TEMP off) s0 = Next s1).
+        { cbn [step]. rewrite FI. unfold need. unfold s0 at 1. rewrite rget_rset_same. rewrite wrap_small_range by lia. reflexivity. }
+        destruct (KEEPJ s1) as (A1 & A2 & A3); try reflexivity.
+        { unfold s1, s0. apply frame_ok_set_flags, frame_ok_rset; [discriminate|]. apply frame_ok_rset; [discriminate|exact F]. }
+        { intros r0 N1 _. unfold s1, s0. rewrite rget_set_flags. rewrite !rget_rset_other by congruence. reflexivity. }
+        exists s1. split; [|auto].
+        eapply exec_next; [exact C0|rewrite (step_MOVL_slot im s sp F) by exact Lt2; rewrite L2; reflexivity|].
+        eapply exec_next; [exact C1|exact ST|].
+        eapply exec_jump; [exact CJ|apply (GO TEMP s1 off); [unfold s1; rewrite rget_set_flags; apply rget_rset_same|reflexivity]|apply ARR]. }
+  destruct JUMP as (sj & XJ & Rj & LQ & FEj & HEj).
+  apply code_at_app in CAb as [CAl CAbd]. apply labels_at_nh_app in LAb as [LAl LAbd].
+  destruct ce as [|ce0 cer].
+  - (* nothing captured *)
+    cbn [ctx_of_env map x_load] in *. inversion LD; subst cl1 lcb. cbn [List.length padd] in CAbd, LAbd.
+    exists pcc, lcl, cb, lcb', sj. split; [exact XJ|]. split; [exact BDY|]. split; [exact CAbd|]. split; [exact LAbd|].
+    split; [exact LCb|]. split; [|exact FEj]. cbn [List.length load_ops hrun fold_left attach]. rewrite !app_nil_r. exact Rj.
+  - set (ce := ce0 :: cer) in *.
+    assert (NEc : map snd ce <> []) by discriminate.
+    assert (XFj : xflds (hword sj) (map snd ce) q).
+    { eapply xflds_ext; [|exact XF]. intros a0 _. apply hword_heap. exact HEj. }
+    assert (IA' : InvA HEAP_BASE hs (roots (attach e1 (ptrs he0) ++ [(x, VClo tn cls ce, q)])) hl fl cl0).
+    { assert (ER : roots (attach e1 (ptrs he0) ++ [(x, VClo tn cls ce, q)]) = roots (he0 ++ [(x, VClo tn cls ce, q)])).
+      { unfold roots. f_equal. unfold ptrs at 1 3. rewrite !map_app. f_equal. exact (ptrs_attach e1 (ptrs he0) Le1). }
+      rewrite ER. exact IA. }
+    destruct (hsim_load im (ptypes p) CLO (cl_ctx cl) (ctx_of_env ce) (attach e1 (ptrs he0)) x (VClo tn cls ce) q (map snd ce) ce hs sj sp lcl cl1 lcb pcc lk hl fl cl0
+                Rj LQ XFj NEc eq_refl (ctx_of_env_ids ce) (ctx_of_env_kinds ce) (lin_nodup _ _ _ LCb) IA' K03 (RF ltac:(discriminate)) HFr LD CAl LAl)
+      as (s' & XL & FEL & RL).
+    rewrite map_length in RL.
+    exists (padd pcc (List.length cl1)), lcb, cb, lcb', s'.
+    split; [eapply exec_to_trans; eassumption|]. split; [exact BDY|]. split; [exact CAbd|]. split; [exact LAbd|]. split; [exact LCb|].
+    split; [rewrite load_ops_run by (cbn; lia); exact RL|eapply hframe_eq_trans; eassumption].
 Qed.
 End HC.
